@@ -78,6 +78,50 @@ def rt_run(r, h_rt, sd, n, mode, timeout):
         r.sample({'runtime_case': s_})
 
 
+def mw_run(r, h_mw, sd, n, timeout, only=None):
+    """several interruptible waits on ONE stop state (c07_multi): the registrations of different waiters coexist in the
+    stop state and leave in any order relative to their registration before request_stop is issued"""
+    args = ['one', str(sd), str(only)] if only is not None else [str(sd), str(n)]
+    rc, out = sh([h_mw] + args, timeout=timeout)
+    lines = out.split('\n')
+    ins = [x for x in lines if x.startswith('IN MW ')]
+    outs = [x for x in lines if x.startswith('OUT MW ')]
+    inmap = {x.split(' ')[2]: x for x in ins}
+    done = set(x.split(' ')[2] for x in outs)
+    r.evaluations += len(outs)
+    for i_ in ins[:2]:
+        r.sample({'stop_multi_case': i_})
+    for i_ in ins:
+        f = dict(x.split('=', 1) for x in i_.split(' ')[3:] if '=' in x)
+        r.count('MW order=%s cv=%s requester=%s' % (f.get('order'), f.get('cv'), f.get('requester')))
+        if f.get('leave') != '-':
+            r.nontrivial(i_)
+    r.extra['stop_multi_cases'] = r.extra.get('stop_multi_cases', 0) + len(outs)
+    for o_ in outs:
+        if ' ok=1' in o_:
+            continue
+        cid = o_.split(' ')[2]
+        i_ = inmap.get(cid, '')
+        f = dict(x.split('=', 1) for x in o_.split(' ')[3:6] if '=' in x)
+        what, order = f.get('what', 'unknown'), f.get('order', 'x')
+        detail = o_.split('detail=', 1)[1] if 'detail=' in o_ else o_
+        r.hits.append(Hit('monitor', 'C07:rt:stop_wait:%s:%s' % (what, order),
+                          'several condition_variable_any::wait(lock, stop_token, pred) calls on tokens of ONE stop_source, some waiters left '
+                          '(predicate set + notified) before request_stop(): %s -- case [%s]' % (detail[:400], i_),
+                          {'harness': 'c07_multi', 'args': ['one', sd, int(cid)], 'case': i_, 'observed': o_}))
+    # a case that printed its IN line and nothing else: the process died inside it
+    dead = [x for x in ins if x.split(' ')[2] not in done]
+    if dead:
+        i_ = dead[-1]
+        m = re.search(r'order=(\w+)', i_)
+        r.hits.append(Hit('monitor', 'C07:rt:stop_wait:crash:%s' % (m.group(1) if m else 'x'),
+                          'the process died (rc=%d) inside a case with several stop-token waits on one stop state: case [%s] tail [%s]'
+                          % (rc, i_, out[-300:]), {'harness': 'c07_multi', 'args': ['one', sd, int(i_.split(' ')[2])], 'case': i_}))
+    elif rc != 0 or not outs:
+        r.hits.append(Hit('tie', 'C07:multi_harness', 'c07_multi %s failed rc=%d: %s' % (' '.join(args), rc, out[-600:]),
+                          {'harness': 'c07_multi', 'args': args}))
+
+
 def run(ctx):
     r = Result()
     r.rule = ('LOCKSTEP (detail::condition_variable on 2..5 std::threads, programs of wait/notify_one/notify_all from VERIF_SEED): '
@@ -96,23 +140,37 @@ def run(ctx):
               '(task or OS thread) is blocked on that mutex, and as soon as it owns it changes the predicate and issues notify_all / '
               'notify_one / request_stop (under the lock or right after unlocking); monitor: every waiter registered before the notifier '
               'acquired the lock wakes within an 8 s watchdog (notify_one: at least one), wait_for does not report timeout for a '
-              'notification that returned >= 150 ms before its deadline, return value / ownership as above.  Non-trivial lock-step case = some thread blocked in '
+              'notification that returned >= 150 ms before its deadline, return value / ownership as above.  STOP-MULTI (c07_multi <seed> <n>): 2..4 waiters '
+              '(pika tasks with unique_lock<pika::mutex> / unique_lock<spinlock>, OS threads with unique_lock<std::mutex>; one shared '
+              'condition_variable_any or one each) inside wait(lock, stop_token, pred) with tokens of ONE stop_source, registered in a controlled '
+              'order (next waiter started after the previous one evaluated its predicate) or all at once; a seeded subset leaves early in a seeded '
+              'order relative to registration (earliest first / latest first / a middle one first / any permutation: predicate set under the user lock '
+              '+ notify_all), optionally new waiters register while those deregister; the leavers overwrite their dead stack frames; then '
+              'request_stop() from a task or an OS thread; monitor: every leaver returns true, every remaining waiter is still waiting before and '
+              'returns false within 10 s after request_stop (which returns true), user lock owned, no crash.  Non-trivial lock-step case = some thread blocked in '
               'suspend or in resume at some step; distinct = distinct IN lines')
     ctx.build_pika()
     drv = ctx.build_model('C07', 'ExtractC07.v', 'drv_c07.ml')
     h_ls = ctx.build_harness('c07_ls', 'c07_ls.cpp')
     h_rt = ctx.build_harness('c07_rt', 'c07_rt.cpp')
     h_f14 = ctx.build_harness('c07_f14', 'c07_f14.cpp')
+    h_mw = ctx.build_harness('c07_multi', 'c07_multi.cpp')
     quick = ctx.tier == 'quick'
     seeds = [ctx.seed] if quick else [ctx.seed + 1000 * k for k in range(4)]
     if ctx.replay:
         try:
-            seeds = [int(json.load(open(ctx.replay)).get('seed', ctx.seed))]
+            rpj = json.load(open(ctx.replay))
+            seeds = [int(rpj.get('seed', ctx.seed))]
+            rp = rpj.get('replay', {})
+            if rp.get('harness') == 'c07_multi' and rp.get('args', [''])[0] == 'one':
+                mw_run(r, h_mw, int(rp['args'][1]), 1, 120, only=int(rp['args'][2]))
+                return r
         except Exception:
             pass
     n_ls = 3000 if quick else 20000
     n_rt = 700 if quick else 5000
     n_slow = 400 if quick else 1500
+    n_mw = 1000 if quick else 6000
     for sd in seeds:
         # ---- lock-step
         rc, out = sh([h_ls, str(sd), str(n_ls)], timeout=600 if quick else 3000)
@@ -157,6 +215,8 @@ def run(ctx):
         rt_run(r, h_rt, sd, n_rt, None, 900 if quick else 3000)
         # ---- slow-unlock scenario (atomic release of U w.r.t. notifiers; the window a wrong order opens is 1..2 ms wide)
         rt_run(r, h_rt, sd, n_slow, 'slow', 600 if quick else 1500)
+        # ---- several stop-token waits on one stop state, leaving in every order relative to their registration
+        mw_run(r, h_mw, sd, n_mw, 300 if quick else 900)
     # ---- F14: the witness of C07_os_timed_wait_blocks_notifier_refuted on the real code (bounded by a watchdog)
     rc, out = sh([h_f14], timeout=60)
     o_ = [x for x in out.split('\n') if x.startswith('OUT F14')]
